@@ -18,15 +18,15 @@ Proof. unfold unit_vec, vnorm2, vdot, vx, vy, vz; cbn [fst snd]. ring. Qed.
 (* (a) internal angle not larger than the external one: the hypothesis n >= 1 is discharged *)
 Theorem internal_not_larger_builtin nm c l T theta phi p s e r M :
   in_window c l -> temp_ok T ->
-  beam_inv s -> 0 <= e <= M -> M < PI / 2 ->
+  beam_inv s -> Rabs e <= M -> M < PI / 2 ->
   0 <= theta_star nm (builtin_index c l T theta phi p) s e <= PI / 2 ->
   snell_cost_gen (builtin_index c l T theta phi p) s e (theta_star nm (builtin_index c l T theta phi p) s e) <= r ->
-  sin (b_theta (set_theta_external_gen (snell_inv_of nm (builtin_index c l T theta phi p)) s e)) <= sin e + r.
+  sin (Rabs (b_theta (set_theta_external_gen (snell_inv_of nm (builtin_index c l T theta phi p)) s e))) <= sin (Rabs e) + r.
 Proof.
   intros Hw HT Hs He HM Hb Hc.
   apply (internal_not_larger nm (builtin_index c l T theta phi p) s e r M Hs He HM Hb Hc).
   unfold builtin_index.
-  pose proof (crystal_index_bounds c l T theta phi _ p Hw HT (unit_normalize_polar (b_phi s) (theta_star nm (builtin_index c l T theta phi p) s e))).
+  pose proof (crystal_index_bounds c l T theta phi _ p Hw HT (unit_normalize_polar (b_phi s) (signum e * theta_star nm (builtin_index c l T theta phi p) s e))).
   unfold builtin_index in H. lra.
 Qed.
 
@@ -61,4 +61,20 @@ Proof.
   unfold builtin_index. apply Rabs_le_inv in Hs.
   set (n := crystal_index c l T theta phi (normalize (polar_dir (b_phi s) theta_i)) p) in *.
   split; nra.
+Qed.
+
+(* |theta_i| <= |theta_e| as angles (up to r / cos M) for the built-in crystals *)
+Theorem internal_angle_not_larger_builtin nm c l T theta phi p s e r M :
+  in_window c l -> temp_ok T ->
+  beam_inv s -> Rabs e <= M -> M < PI / 2 ->
+  0 <= theta_star nm (builtin_index c l T theta phi p) s e <= PI / 2 ->
+  snell_cost_gen (builtin_index c l T theta phi p) s e (theta_star nm (builtin_index c l T theta phi p) s e) <= r ->
+  sin (Rabs e) + r <= sin M ->
+  Rabs (b_theta (set_theta_external_gen (snell_inv_of nm (builtin_index c l T theta phi p)) s e)) <= Rabs e + r / cos M.
+Proof.
+  intros Hw HT Hs He HM Hb Hc HrM.
+  apply (internal_angle_not_larger nm (builtin_index c l T theta phi p) s e r M Hs He HM Hb Hc HrM).
+  unfold builtin_index.
+  pose proof (crystal_index_bounds c l T theta phi _ p Hw HT (unit_normalize_polar (b_phi s) (signum e * theta_star nm (builtin_index c l T theta phi p) s e))).
+  unfold builtin_index in H. lra.
 Qed.
